@@ -3,7 +3,7 @@ open Model
 open Drv_core
 
 let xvariant = function
-  | "xof" | "hash" -> vxof | "xofa" | "hasha" -> vxofa | _ -> failwith "xvariant"
+  | "xof" | "hash" -> vxof | "xofa" | "hasha" -> vxofa | "prf" -> vprf | _ -> failwith "xvariant"
 let is_hash s = (s = "hash" || s = "hasha")
 
 let xslots : (int, xof_variant * xof_state) Hashtbl.t = Hashtbl.create 16
@@ -23,6 +23,8 @@ let process (toks : string list) : string =
      | [v; ("INIT" | "REINIT")] ->
        let xv = xvariant v in
        Hashtbl.replace xslots s (xv, if is_hash v then x_xof_init_fixed xv (n_of_int 32) else x_xof_init xv); "OK"
+     | [v; ("INITK" | "REINITK"); k; l] ->
+       Hashtbl.replace xslots s (xvariant v, x_prf_init (bytes_of_hex k) (n_of_int (int_of_string l))); "OK"
      | [v; ("INITF" | "REINITF"); l] ->
        let xv = xvariant v in Hashtbl.replace xslots s (xv, x_xof_init_fixed xv (n_of_int (int_of_string l))); "OK"
      | [v; ("INITC" | "REINITC"); name; custom; l] ->
